@@ -197,8 +197,9 @@ func (s glueSuite) Gen(r *Rng, i int, tier string) any {
 		}
 	}
 	// a HISTORY over one NewMultiArch value (glue_history.go): rounds of resolution with repository updates in between
-	hist := map[string]int{"glue-avail": 36, "glue-pure": 10}[focus]
-	if c.Mode != "single" && len(c.Archs) >= 2 && r.Chance(hist) {
+	// (glue-avail only: the cases of glue-resolve / glue-pure — C02, C08 — are what they were; `g.corr` / `g.resolve`
+	// judge a history round the same way, so another suite adopts histories by getting a share here)
+	if focus == "glue-avail" && c.Mode != "single" && len(c.Archs) >= 2 && r.Chance(36) {
 		glueGenHistory(r, &c)
 	}
 	return c
